@@ -253,3 +253,31 @@ Definition connect_and_request (pk : pubkey) (dr : draws) (e : env)
   end.
 
 End Client.
+
+(* ---- after makeAuthKey returned: the server speaks again, UNENCRYPTED, on the same connection ----
+   mtproto.go readMsg.  While serviceModeActivated - it STAYS set after an abandoned exchange, only the success path of
+   makeAuthKey clears it - a readable body is parked on serviceChannel for the next service request and an unreadable
+   one is handed over as that request's error: no handler runs.  Outside service mode (after Success) an unencrypted
+   message is refused ("unencrypted message outside of key exchange", patch 0007): the ordinary handlers - the only
+   code besides makeAuthKey that calls SaveSession (new_session_created, bad_server_salt, also inside a container) - see
+   messages authenticated by the auth key only; those are the subject of C09-C11, not of the key exchange.
+   [handlers] is what handleResponse would do with a body: arbitrary, it may Save. *)
+Record cstate := mkcstate { c_service : bool; c_encrypted : bool }.
+Definition state_after (f : final) : cstate :=
+  match f with
+  | Success _ _ _ => mkcstate false true
+  | Stopped _ => mkcstate true false
+  end.
+
+Definition receive_unencrypted (handlers : bytes -> list effect) (st : cstate) (a : arrival) : list effect :=
+  match a with
+  | Reply body =>
+      if c_service st then []          (* parked for / handed to the next service request *)
+      else if c_encrypted st then []   (* refused: unencrypted message outside of key exchange *)
+      else []                          (* not reachable from state_after; refused all the same *)
+  | TransportError => []               (* reported (Warnings) *)
+  | Closed => []                       (* service mode: error for the next service request; otherwise Reconnect (C16) *)
+  end.
+
+Definition after_exchange (handlers : bytes -> list effect) (f : final) (more : list arrival) : list effect :=
+  concat (map (receive_unencrypted handlers (state_after f)) more).
